@@ -439,6 +439,10 @@ func main() {
 			mr, err = &wire.ShardResult{}, nil
 		} else {
 			mr, out, err = runJob(wire.Config{Property: id, Tier: tier, Mode: "minimize", TapeFile: vf}, "minimize")
+			// process-level parts run the real binary: the schedule inside that child is the kernel's
+			for try := 0; processLevel(v.Site) && err == nil && mr.Minimised == nil && try < 3; try++ {
+				mr, out, err = runJob(wire.Config{Property: id, Tier: tier, Mode: "minimize", TapeFile: vf}, "minimize")
+			}
 		}
 		if err != nil {
 			fmt.Fprintf(os.Stderr, "driver: minimiser failed for %s: %v\n%s\n", fp, err, tail(out, 2000))
@@ -451,6 +455,13 @@ func main() {
 		j, _ = json.MarshalIndent(final, "", " ")
 		os.WriteFile(dest, j, 0644)
 		rr, out, err := runJob(wire.Config{Property: id, Tier: tier, Mode: "replay", TapeFile: dest}, "replay")
+		sameViol := func() bool {
+			return err == nil && rr.ReplayResult != nil && rr.ReplayResult.Kind == v.Kind && rr.ReplayResult.Site == v.Site
+		}
+		for try := 1; processLevel(v.Site) && !sameViol() && try < 5; try++ {
+			fmt.Fprintf(os.Stderr, "driver: process-level violation %s: fresh-process replay attempt %d did not show it, trying again\n", fp, try)
+			rr, out, err = runJob(wire.Config{Property: id, Tier: tier, Mode: "replay", TapeFile: dest}, "replay")
+		}
 		if err != nil || rr.ReplayResult == nil || rr.ReplayResult.Kind != v.Kind || rr.ReplayResult.Site != v.Site {
 			fmt.Fprintf(os.Stderr, "driver: violation %s (%s) did NOT replay in a fresh process: simulator nondeterminism, not reported as a finding\n%s\n", fp, v.Detail, tail(out, 2000))
 			tooling = true
@@ -581,3 +592,8 @@ func sanitize(s string) string {
 	}
 	return b.String()
 }
+
+// processLevel reports whether a violation site belongs to a part that runs the real desync binary as a
+// child process ("desync <command> ..."): there the simulator decides inputs, held requests, signals and the
+// syscall at which the child dies, but not the goroutine schedule inside the child.
+func processLevel(site string) bool { return strings.HasPrefix(site, "desync ") }
